@@ -701,6 +701,18 @@ def run(chk):
     finally:
         chk.rule_prefix = ""
         chk.rule_filter = None
+    # the queue's capacity (queue_len, num_free) as set by the static initialiser is base_len / msg_len of the caller's argument
+    # expressions, each taken as a unit (C10 G1): a wrong depth hands out slots beyond the pool or never uses part of it
+    chk.rule("C10.G1", "MESSAGEQ_VAR_INIT and messageq_init describe the same queue; the macro uses each argument as one expression")
+    chk.rule_prefix = "C10."
+    chk.rule_filter = lambda r: r.startswith("G1")
+    try:
+        for cfg in ("default", "noatomics"):
+            C10.check_g1(chk, cfg)
+            C10.check_macro_arguments(chk, cfg)
+    finally:
+        chk.rule_prefix = ""
+        chk.rule_filter = None
     # "a claimed buffer belongs to its claimer until sent and then to the receiver until released": the library's own users of
     # the queue must stay inside that window (C07.R3: slot written before send, read before release)
     from . import C07
